@@ -122,10 +122,6 @@ func (p *_RemoveUnusedPass) markFuncReachable_ins(ins ast.Instruction) {
 		if xFn := p.funcs[ins.X]; xFn.color == white {
 			p.markFuncReachable(xFn)
 		}
-	case ast.Ins_TableSet:
-		if xFn := p.funcs[ins.TableIdx]; xFn.color == white {
-			p.markFuncReachable(xFn)
-		}
 	case ast.Ins_Block:
 		for _, x := range ins.List {
 			p.markFuncReachable_ins(x)
